@@ -752,7 +752,9 @@ class Fn:
                 raise Unsupported("assignment target")
 
         for s in stmts:
-            if isinstance(s, ast.Assign):
+            if isinstance(s, ast.AnnAssign) and s.value is not None:
+                tgt(s.target)
+            elif isinstance(s, ast.Assign):
                 for t in s.targets:
                     tgt(t)
             elif isinstance(s, ast.AugAssign):
@@ -864,6 +866,8 @@ class Fn:
             if ty != self.ret:
                 raise Unsupported("yield type")
             return self.wrap(hoist, f"SYield {t}", mode)
+        if isinstance(s, ast.AnnAssign) and s.value is not None and isinstance(s.target, ast.Name):
+            s = ast.Assign(targets=[s.target], value=s.value)  # an annotated assignment is an assignment
         if isinstance(s, ast.Assign):
             if len(s.targets) != 1:
                 raise Unsupported("chained assignment")
